@@ -448,13 +448,10 @@ theorem followTail_err {A X : σ} : ∀ (β : List σ) (st : SetMap σ × SetMap
         · cases h
       · rcases exc_bind_err h with h1 | ⟨f, _, h⟩
         · exact dgetE_err h1
-        · split at h
-          · rcases exc_bind_err h with h1 | ⟨d, _, h⟩
-            · exact dgetE_err h1
-            · simp only [pure_bind] at h
-              exact followTail_err rest _ _ h
-          · simp only [pure_bind] at h
-            cases h
+        · simp only [pure_bind] at h
+          split at h
+          · exact followTail_err rest _ _ h
+          · cases h
 
 theorem followRule_err {A : σ} : ∀ (l : List σ) (st : SetMap σ × SetMap σ) (e : Err),
     followRule terms nulls first A l st = .error e → e = .keyError
